@@ -443,6 +443,31 @@ def gen_coeff_case(r):
     return ["coeffs %s %d %d %d %d" % (kind, n, lam, r.choice([1, lam - 1, r.range(1, lam - 1)]), r.below(3))]
 
 
+def gen_coeff_axis_cases(r):
+    """the strategy constants must be the regenerated formulas under every construction mode and init overload (a long
+    overload that forgets the recombination type, a setter path that computes mu differently, ...)"""
+    out = []
+    for kind in ("cma", "cmsa", "vdcma", "ecma"):
+        for rng in (None, "private"):
+            for init in (None, "propose", "points", "full"):
+                for st in ("default", "both", "lambda"):
+                    if kind == "ecma" and (init == "full" or st != "default"): continue
+                    if kind == "vdcma" and st == "lambda": continue
+                    if kind == "vdcma" and st == "both" and init != "full": continue     # VD-CMA has no population setters: sizes only through the long overload
+                    if init == "full" and st == "lambda": continue
+                    n = r.choice(list(range(1, 13)) + [20, 50])
+                    rec = r.below(3)
+                    lam, mu = 0, 0
+                    if st == "both":
+                        lam = r.choice([2, 3, r.range(2, 40), r.range(41, 200)]); mu = r.choice([1, lam - 1, r.range(1, lam - 1)])
+                    elif st == "lambda":
+                        lam = r.range(4, 60)
+                        mu = lam // 4 if (kind == "cmsa" or rec == 0) else lam // 2      # CMSA::init / CMA::suggestMu
+                    o = " ".join("%s=%s" % (k, v) for k, v in (("rng", rng), ("init", init), ("set", "lambda" if st == "lambda" else None)) if v)
+                    out.append([("coeffs %s %d %d %d %d %s" % (kind, n, lam, mu, rec, o)).strip()])
+    return out
+
+
 def case_info(ops):
     info = {"opt": "?", "obj": "?", "n": 0, "box": False, "kind": "coeffs", "steps": 0, "lambda": 0, "options": {}}
     for o in ops:
@@ -458,7 +483,9 @@ def case_info(ops):
         elif t[0] in ("cmatrace", "ecmatrace", "cmsatrace", "cemtrace"):
             info["kind"], info["steps"] = "trace", int(t[2])
         elif t[0] == "simplexrun": info["kind"], info["steps"], info["opt"] = "trace", int(t[1]), "simplex"
-        elif t[0] == "coeffs": info["opt"], info["n"], info["lambda"] = t[1], int(t[2]), int(t[3])
+        elif t[0] == "coeffs":
+            info["opt"], info["n"], info["lambda"] = t[1], int(t[2]), int(t[3])
+            info["options"] = dict(x.split("=", 1) for x in t[6:] if "=" in x)
     return info
 
 
@@ -488,7 +515,7 @@ def run_case(ctx, hcmd, dcmd, ops, timeout=600, stats=None):
             r.oracle.append(line.split(" !oracle")[0][:200] + " ... " + line[line.index("!oracle"):][:300]); r.ok = False
         payload = line.split(" !oracle")[0]
         if o.startswith("coeffs"):
-            dops.append(o); expect.append(("equal", payload))
+            dops.append(" ".join(x for x in o.split() if "=" not in x)); expect.append(("equal", payload))
         elif o.startswith("cmatrace") and payload.startswith("trace"):
             dops.append("xtrace " + payload); expect.append(("verdict", "cma"))
         elif o.split()[0] in ("ecmatrace", "cmsatrace", "cemtrace") and payload.startswith("trace"):
@@ -631,6 +658,8 @@ def run(ctx):
     ncoef, nrun, maxsteps, ntrace, tsteps, nconv, csteps = (160, 110, 40, 30, 12, 10, 400) if ctx.quick else (2000, 900, 150, 300, 40, 80, 600)
     cases = list(corpus)
     cases += [gen_coeff_case(r) for _ in range(ncoef)]
+    for rep in range(1 if ctx.quick else 5):
+        cases += gen_coeff_axis_cases(r)
     for _ in range(nrun):
         ops, cls = gen_run_case(r, maxsteps)
         cases.append(ops)
